@@ -92,6 +92,9 @@ type xstreamRec struct {
 	id       uint64
 	oneway   bool
 	sender   types.StreamSender
+	ctx      context.Context
+	released bool    // pooled mode: the per-request buffer context went back to the pool (the sender must not be touched any more)
+	ptr      uintptr // address of the pooled xStream struct behind the sender
 	mu       sync.Mutex
 	recv     []uint32 // tokens of the answers delivered to this stream's receiver
 	resets   int
@@ -132,6 +135,21 @@ type xworld struct {
 	streams  []*xstreamRec
 	lastTok  map[uint64]uint32 // id -> token of the last request written with that id (what the upstream would answer)
 	inflight map[int]bool      // truth kept by the harness: created with receiver, not yet answered, not reset by its holder
+	pooled   bool              // release every request's buffer context to the real pool when the request ends (as the proxy does)
+	dead     bool              // pooled mode: the connection was reset/closed; nothing is dispatched on it any more
+	reused   int               // pooled mode: how often NewStream handed out a pooled struct that an earlier request had used
+}
+
+var seenStructs sync.Map // address of pooled xStream structs already used by a request of this run
+
+// release gives the request's buffer context back to the pool (proxy: downstream.giveStream at the end of a request)
+func (w *xworld) release(rec *xstreamRec) {
+	if !w.pooled || rec.released {
+		return
+	}
+	rec.released = true
+	delete(w.inflight, rec.idx)
+	buffer.PoolContext(rec.ctx).Give()
 }
 
 var fakeConnID uint64 = 1 << 40
@@ -261,9 +279,14 @@ func (w *xworld) apply(o xop) (xobsT, []xfinding) {
 		if !rec.oneway {
 			recv = rec
 		}
+		rec.ctx = ctx
 		rec.sender = w.cli.NewStream(ctx, recv)
 		rec.id = rec.sender.GetStream().ID()
 		rec.sender.GetStream().AddEventListener(rec)
+		rec.ptr = reflect.ValueOf(rec.sender).Pointer()
+		if _, old := seenStructs.LoadOrStore(rec.ptr, true); old {
+			w.reused++
+		}
 		// the id must not be the id of a stream in flight (the harness never keeps a stream across a turn of the id space)
 		for i, fl := range w.inflight {
 			if fl && w.streams[i].id == rec.id {
@@ -291,18 +314,40 @@ func (w *xworld) apply(o xop) (xobsT, []xfinding) {
 		w.lastTok[rec.id] = rec.tok
 		out = fmt.Sprintf("OId %d", rec.id)
 		coqOut = fmt.Sprintf("OId %s", CoqN(rec.id))
+		if rec.oneway {
+			w.release(rec)
+		}
 	case "resp":
 		tok := w.lastTok[o.ID]
 		b := w.frameBytes(ppResponse, o.ID, tok)
-		for _, rf := range w.conn.fm.rf {
-			rf.OnData(buffer.NewIoBufferBytes(b))
-		}
+		func() {
+			// the connection's read loop recovers a panic of the stream layer and closes the connection; here it is a finding:
+			// a response must be delivered to the stream its id belongs to or dropped
+			defer func() {
+				if p := recover(); p != nil {
+					fs = append(fs, xfinding{"xconn:dispatch-panicked", fmt.Sprintf("dispatching the response with id %d panicked: %v", o.ID, p)})
+					w.dead = true
+				}
+			}()
+			for _, rf := range w.conn.fm.rf {
+				rf.OnData(buffer.NewIoBufferBytes(b))
+			}
+		}()
 		out, coqOut = "ODrop", "ODrop"
 	case "reset":
-		w.streams[o.S].sender.GetStream().ResetStream(types.StreamLocalReset)
-		delete(w.inflight, o.S)
+		if !w.streams[o.S].released {
+			w.streams[o.S].sender.GetStream().ResetStream(types.StreamLocalReset)
+			delete(w.inflight, o.S)
+			w.release(w.streams[o.S])
+		}
 	case "connreset":
 		w.conn.Close(api.NoFlush, api.RemoteClose)
+		if w.pooled {
+			w.dead = true
+			for _, rec := range w.streams {
+				w.release(rec) // every request of the dead connection ends
+			}
+		}
 	}
 	// deliveries caused by this op
 	for len(before) < len(w.streams) {
@@ -329,6 +374,7 @@ func (w *xworld) apply(o xop) (xobsT, []xfinding) {
 				fs = append(fs, xfinding{"xconn:delivery-to-completed-stream", fmt.Sprintf("stream %d is not in flight but received a delivery", i)})
 			}
 			delete(w.inflight, i)
+			w.release(s)
 		}
 		if len(recv) > 1 {
 			fs = append(fs, xfinding{"xconn:response-delivered-twice", fmt.Sprintf("stream %d received %d deliveries", i, len(recv))})
@@ -461,7 +507,7 @@ func c02(args []string) int {
 	log.Proxy.SetLogLevel(log.FATAL)
 	registerProtocols()
 	r := run.R
-	run.Sum.Rule = "histories on one real xprotocol client stream connection (stream.NewStreamClient over a recording connection; id generators = the real GenerateRequestID of bolt (uint32), tars (int32, sign-extended), dubbo (uint64), and the real bolt codec end to end): families perm (N<=5 streams, responses in EVERY permutation), dup (every response twice / unknown ids), late (response after stream reset), connreset (connection reset at EVERY position of a base history), wrap (counter preset just below 2^31, 2^32, 2^63, 2^64 so the ids wrap inside the history), random (8-40 ops over {new, one-way, response to any stream's id incl. completed ones, unknown id, stream reset incl. stale and repeated, connection reset}); non-trivial: at least 2 streams and one op other than new/response-in-order; distinct by (generator, initial counter, op sequence). Second mode: the same operations from concurrent goroutines, delivery soundness only."
+	run.Sum.Rule = "histories on one real xprotocol client stream connection (stream.NewStreamClient over a recording connection; id generators = the real GenerateRequestID of bolt (uint32), tars (int32, sign-extended), dubbo (uint64), and the real bolt codec end to end): families perm (N<=5 streams, responses in EVERY permutation), dup (every response twice / unknown ids), late (response after stream reset), connreset (connection reset at EVERY position of a base history), wrap (counter preset just below 2^31, 2^32, 2^63, 2^64 so the ids wrap inside the history), random (8-40 ops over {new, one-way, response to any stream's id incl. completed ones, unknown id, stream reset incl. stale and repeated, connection reset}); non-trivial: at least 2 streams and one op other than new/response-in-order; distinct by (generator, initial counter, op sequence). Pooled mode (families pooled-late, pooled-random): 2-3 connections in one history, every request with its own buffer-pool context that is given back to the REAL pool when the request ends, so the pooled xStream struct is reused by later requests on the same or another connection; a reset connection is dead afterwards; late replies for reset requests on the healthy connections. Concurrent mode: the same operations from concurrent goroutines, delivery soundness only."
 	gens := []string{"GenU32", "GenS32", "GenU64", "bolt"}
 	wraps := map[string][]uint64{
 		"GenU32": {0, 1<<32 - 3, 1<<32 - 1, 1<<31 - 2, 1<<64 - 2, 1<<33 - 2},
@@ -579,6 +625,7 @@ func c02(args []string) int {
 	}
 	sh.Close()
 
+	c02pooled(run)
 	c02server(run)
 	c02concurrent(run)
 	c02window(run)
